@@ -374,6 +374,9 @@ def run_oracle(ctx):
             if r is not None and r.t.shape[1] * ex.NCHILD[kind] <= 400:
                 base = type(r)(r.p, r.t, **({'sort_t': r.sort_t} if kind == 'tri' else {}))
                 check_one_step(ctx, kind, base, {'a': r.subdomains['a']} if r.subdomains else {}, {}, f'unused-points:{how}/step1')
+    # coverage audit: public constructors, call forms and operations that forward to the refinement core
+    from .. import c12_api
+    c12_api.run_api_cases(ctx, 'uniform', check_one_step, None, rng)
     # the documented small examples
     import skfem
     for cls in (skfem.MeshLine, skfem.MeshTri, skfem.MeshQuad, skfem.MeshTet, skfem.MeshHex):
